@@ -109,7 +109,9 @@ def run(chk):
         if cf is None:
             r2.fail("PooledClient.%s:no-counterpart" % name, "PooledClient.%s has no counterpart on Client" % name, fn=pf, node=pf.node)
             continue
-        calls = [c for c in walk_no_nested(pf.node) if isinstance(c, ast.Call) and isinstance(c.func, ast.Attribute) and isinstance(c.func.value, ast.Name) and c.func.value.id == "client"]
+        # the pooled client is whatever the get_and_release bracket binds
+        cvars = {it.optional_vars.id for w in walk_no_nested(pf.node) if isinstance(w, ast.With) for it in w.items if isinstance(it.optional_vars, ast.Name) and isinstance(it.context_expr, ast.Call) and isinstance(it.context_expr.func, ast.Attribute) and it.context_expr.func.attr == "get_and_release"}
+        calls = [c for c in walk_no_nested(pf.node) if isinstance(c, ast.Call) and isinstance(c.func, ast.Attribute) and isinstance(c.func.value, ast.Name) and c.func.value.id in cvars]
         deleg = [c for c in calls if c.func.attr == name]
         if len(deleg) != 1 or len(calls) != 1:
             r2.fail("PooledClient.%s:delegate-call" % name, "PooledClient.%s calls %s on the pooled client (expected exactly one call of client.%s)" % (name, [c.func.attr for c in calls], name), fn=pf, node=pf.node)
@@ -150,7 +152,11 @@ def run(chk):
                 if not (isinstance(a0, ast.Constant) and a0.value in expected):
                     problems.append("runs command %s inside %s" % (node_src(a0) if a0 is not None else None, name))
                 a1 = c.args[1] if len(c.args) > 1 else None
-                if not (isinstance(a1, ast.Name) and a1.id in ("key",)):
+                keyvars = {p_.name for p_ in hf.pos_params()[:1]}
+                for anc in _for_ancestors(c):
+                    if isinstance(anc.iter, ast.Name) and anc.iter.id in keyvars and isinstance(anc.target, ast.Name):
+                        keyvars.add(anc.target.id)
+                if not (isinstance(a1, ast.Name) and a1.id in keyvars):
                     problems.append("second argument `%s` is not the key" % (node_src(a1) if a1 is not None else None))
                 explicit = [p.name for p in hf.pos_params() if p.name not in ("key", "keys")]
                 kws = {k.arg: k.value for k in c.keywords if k.arg}
@@ -302,7 +308,8 @@ def _check_run_cmd(prog, r2):
     rc = prog.method(hashc, "_run_cmd")
     src = rc.node
     ga = [c for c in walk_no_nested(src) if isinstance(c, ast.Call) and call_name(c) == "getattr"]
-    ok1 = len(ga) == 1 and len(ga[0].args) == 2 and isinstance(ga[0].args[0], ast.Name) and ga[0].args[0].id == "client" and isinstance(ga[0].args[1], ast.Name) and ga[0].args[1].id == rc.pos_params()[0].name
+    routed = [n.targets[0].elts[0].id for n in walk_no_nested(src) if isinstance(n, ast.Assign) and isinstance(n.value, ast.Call) and call_name(n.value) == "self._get_client" and isinstance(n.targets[0], ast.Tuple) and isinstance(n.targets[0].elts[0], ast.Name)]
+    ok1 = len(ga) == 1 and len(ga[0].args) == 2 and isinstance(ga[0].args[0], ast.Name) and ga[0].args[0].id in routed and isinstance(ga[0].args[1], ast.Name) and ga[0].args[1].id == rc.pos_params()[0].name
     r2.expect(ok1, "_run_cmd resolves the method by the command name on the routed client", "HashClient._run_cmd:getattr", "_run_cmd does not look the command up by name on the routed client", fn=rc, node=src)
     srf = [c for c in walk_no_nested(src) if isinstance(c, ast.Call) and call_name(c) == "self._safely_run_func"]
     ok2 = False
@@ -340,6 +347,14 @@ def _check_run_cmd(prog, r2):
             rets = [s for s in (body or []) if isinstance(s, ast.Return) and s.lineno > p.lineno]
             ok = bool(rets) and isinstance(rets[0].value, ast.Name) and rets[0].value.id == var
             r2.expect(ok, "_safely_run_func returns the delegate's result (`%s`)" % var, "HashClient._safely_run_func:result-modified", "_safely_run_func does not return func's result unmodified after line %d" % p.lineno, fn=sf, node=p)
+
+
+def _for_ancestors(n):
+    n = getattr(n, "_parent", None)
+    while n is not None:
+        if isinstance(n, ast.For):
+            yield n
+        n = getattr(n, "_parent", None)
 
 
 def _forwarding(pf, cf, call):
